@@ -120,6 +120,10 @@ def choice_vectors(rng, m, n):
             {"custom": [{"at": 0, "name": "target_features", "payload": [1, 0x2D, 7] + list(b"simd128")},
                         {"at": 99, "name": "producers", "payload": [1, 8] + list(b"language") + [1, 1, 0x43, 2] + list(b"99")},
                         {"at": 4, "name": "dylink.0", "payload": [1, 4, 0, 0, 0, 0]}, {"at": 6, "name": "linking", "payload": [2]}]},
+            # names are UTF-8: code points at every boundary of the encoding (1/2/3/4 bytes, around the surrogate gap, the last one)
+            {"custom": [{"at": k, "name": {"bytes": list(chr(cp).encode("utf-8"))}, "payload": [k]} for k, cp in
+                        enumerate([0x7F, 0x80, 0x7FF, 0x800, 0xD3FF, 0xD400, 0xD55C, 0xD7FF, 0xE000, 0xFFFD, 0xFFFF, 0x10000, 0x10FFFF])]},
+            {"custom": [{"at": 99, "name": {"bytes": list("\ud55c\uae00 \u00e9\u00df \U0001F600 \u4e2d".encode("utf-8"))}, "payload": []}]},
             {"explicitElse": True}, {"explicitElse": True, "padall": 1},
             {"splitLocals": "single"}, {"splitLocals": "pairs"}, {"splitLocals": "empties"}, {"splitLocals": "single", "padall": 1}]
     for _ in range(n):
